@@ -205,7 +205,16 @@ func iterRunner(c C18Case) (run func(cb func(Item) bool), unordered bool, errorI
 		if start < len(text) {
 			sizes = append(sizes, len(text)-start)
 		}
-		return func(cb func(Item) bool) { codec.Reader(&fault.Chunked{Data: text, Sizes: sizes}, cb) }, false, codec.ErrorIsLast, true
+		// every third such stream also makes no progress for a while in the middle: 120 reads
+		// in a row return (0, nil) - which buffered readers report as an error - before the
+		// data carries on
+		stall := 0
+		if len(text)%3 == 0 && len(text) > 0 {
+			stall = 120
+		}
+		return func(cb func(Item) bool) {
+			codec.Reader(&fault.Chunked{Data: text, Sizes: sizes, StallAt: len(text) / 2, Stall: stall}, cb)
+		}, false, codec.ErrorIsLast, true
 	}
 	return func(cb func(Item) bool) { codec.Reader(bytes.NewReader(text), cb) }, false, codec.ErrorIsLast, true
 }
